@@ -283,6 +283,39 @@ pub fn run_history(ops: &[HOp], nctx: usize, nbinds: usize, oracle: bool) -> His
                     if rf != r1 {
                         failures.push((describe(ops), r1.clone(), rf.clone(), what("fresh context/bindings holding only the latest definitions")));
                     }
+                    // a fresh context holding only the programs this one can reach by name (a name bound as a variable is
+                    // the variable, not a program): programs that are not referenced must not matter
+                    {
+                        let bound: Vec<&str> = btrack[b].params.iter().map(|(n, _)| *n).collect();
+                        let mut need: Vec<&str> = vec![name];
+                        let mut i = 0;
+                        while i < need.len() {
+                            let cur = need[i];
+                            i += 1;
+                            if let Some((_, src)) = ctrack[c].progs.iter().find(|(n, _)| **n == cur) {
+                                if let Ok(p) = rscel::Program::from_source(src) {
+                                    for q in p.params() {
+                                        if let Some((pn, _)) = ctrack[c].progs.iter().find(|(n, _)| **n == q) {
+                                            if !bound.contains(pn) && !need.contains(pn) {
+                                                need.push(*pn);
+                                            }
+                                        }
+                                    }
+                                }
+                            }
+                        }
+                        let mut min_ctx = CelContext::new();
+                        for (n, src) in ctrack[c].progs.iter() {
+                            if need.contains(n) {
+                                let _ = min_ctx.add_program_str(n, src);
+                            }
+                        }
+                        let rmin = show_result(&min_ctx.exec(name, &fresh_binds));
+                        final_execs += 1;
+                        if rmin != r1 {
+                            failures.push((describe(ops), r1.clone(), rmin.clone(), what("fresh context holding only the programs reachable by name from the executed one")));
+                        }
+                    }
                     let rb = show_result(&clone_ctx_before.exec(name, &clone_binds_before));
                     if rb != r1 {
                         failures.push((describe(ops), r1.clone(), rb.clone(), what("clones taken before")));
